@@ -427,7 +427,7 @@ def add_scrypt(reg, num_keys=1):
                                 # slice bounds are linear consequences over the monomials k*r, p*r)
                                 'invariant': ['0 <= k * (128 * r)', 'k < p ==> (k + 1) * (128 * r) <= p * (128 * r)',
                                               'len(data_out) == k', 'len(b"".join(data_out)) == k * (128 * r)',
-                                              'b"".join(data_out) == spec.kdf.scrypt_mix(stage_1, 128 * r, N, k)']}},
+                                              'b"".join(data_out) == spec.kdf.scrypt_mix(stage_1, 128 * r, N, k, k * (128 * r))']}},
                      opaque=['spec.kdf.pbkdf2']))
     return reg
 
